@@ -242,7 +242,6 @@ func finishLife(c *Case, ts []tstep, kOf map[int]int64) *Case {
 	return c
 }
 
-
 // ---------------------------------------------------------------------------------------
 // C11 variant "displace": sessions ended by a newer session with the same client identifier
 
@@ -361,6 +360,22 @@ func (w *world) judgeDisplacedSessions(prop string, all []*simClient, final sett
 				w.o.violate(prop, "subscription-remains", f.causeStep, endMs, attrs,
 					"client %d's session %s was displaced and ended (%s at %dms) but node %d still lists its subscriptions %v", cl.idx, cl.sid, how, endedAt, ni, subs)
 				return inTransit
+			}
+		}
+		if pre := w.preAfter(endedAt + 2000); pre != nil {
+			w.o.probe("judged_before_anti_entropy")
+			for ni, l := range pre {
+				left := subsOfSession(l, cl.sid)
+				for _, x := range l {
+					if strings.HasPrefix(x, "S|"+cl.sid+"|") {
+						left = append(left, x)
+					}
+				}
+				if len(left) > 0 {
+					w.o.violate(prop, "trace-until-anti-entropy", f.causeStep, endMs, map[string]string{"cause": "displaced", "how": how, "before_anti_entropy": "true"},
+						"client %d's session %s was displaced and ended (%s at %dms); every broadcast had been delivered yet node %d still listed %v until the anti-entropy exchange", cl.idx, cl.sid, how, endedAt, ni, left)
+					return inTransit
+				}
 			}
 		}
 		for _, ob := range w.obs {
@@ -617,6 +632,25 @@ func judgeLifecycleOpts(prop string, withDisplaced bool) func(w *world) {
 					break
 				}
 			}
+			// the same before anti-entropy: the broadcasts of the teardown alone must do it
+			if pre := w.preAfter(goneBy); pre != nil && cl.sid != "" && !displaced {
+				w.o.probe("judged_before_anti_entropy")
+				for ni, l := range pre {
+					left := subsOfSession(l, cl.sid)
+					for _, x := range l {
+						if strings.HasPrefix(x, "S|"+cl.sid+"|") {
+							left = append(left, x)
+						}
+					}
+					if len(left) > 0 {
+						m := attrsAt(ni)
+						m["before_anti_entropy"] = "true"
+						w.o.violate(prop, "trace-until-anti-entropy", f.causeStep, endMs, m,
+							"client %d's session %s ended by %s at %dms; every broadcast had been delivered (no loss, no datagram under way) yet node %d still listed %v until the anti-entropy exchange", cl.idx, cl.sid, f.cause, f.causeAt, ni, left)
+						break
+					}
+				}
+			}
 			if cl.sid != "" {
 				for ni, l := range final.Listings {
 					if subs := subsOfSession(l, cl.sid); len(subs) > 0 {
@@ -648,7 +682,6 @@ func judgeLifecycleOpts(prop string, withDisplaced bool) func(w *world) {
 		w.o.Nontrivial = judged >= 2
 	}
 }
-
 
 // judgeQuiescence: (c) every listed subscription belongs to a listed session connected on the node
 // it names. exempt names sessions that are legitimately in transit at the end of the run (displaced
@@ -697,6 +730,17 @@ func judgeQuiescence(w *world, prop string, final settleRec, exempt map[string]b
 	}
 }
 
+// preAfter: the pre-anti-entropy listings of the first settle that began at or after t (nil if
+// that settle could not vouch for "every broadcast delivered").
+func (w *world) preAfter(t int64) map[int][]string {
+	for i := range w.settles {
+		if w.settles[i].AtMs-settleDur+100 >= t {
+			return w.settles[i].Pre
+		}
+	}
+	return nil
+}
+
 func longestGap(w *world, cl *simClient, endMs int64) int64 {
 	var txs []int64
 	for _, ob := range w.obs {
@@ -730,12 +774,12 @@ func firstGap(w *world, cl *simClient) int64 {
 
 func init() {
 	register(&Check{ID: "C11", Variant: "displace", Level: "exploration", Build: "maporder", Gen: genC11Displace, Run: runC11Displace, QuickS: 15, ThoroughS: 240,
-		Rule:   "variant for the cause 'displaced by a newer session': chains of 2-3 connections sharing a client identifier over 1-3 nodes with gossip faults, the older ones subscribed; after an anti-entropy round every displaced session has a keep-alive exchange, then a second settle; a displaced session that has ended (closed by the broker, DISCONNECT or link loss) leaves no record or subscription anywhere and is written nothing more; quiescence invariant over the final listings",
-		Real:   e1Real, Stub: e1Stub,
+		Rule: "variant for the cause 'displaced by a newer session': chains of 2-3 connections sharing a client identifier over 1-3 nodes with gossip faults, the older ones subscribed; after an anti-entropy round every displaced session has a keep-alive exchange, then a second settle; a displaced session that has ended (closed by the broker, DISCONNECT or link loss) leaves no record or subscription anywhere and is written nothing more; quiescence invariant over the final listings",
+		Real: e1Real, Stub: e1Stub,
 		Assume: []string{"a displaced session still connected at the end (its host never held the successor's record at one of its keep-alive exchanges) is not judged and its subscriptions are exempt from the quiescence invariant"}})
 	register(&Check{ID: "C11", Level: "exploration", Build: "maporder", Gen: genC11, Run: runC11, QuickS: 30, ThoroughS: 480,
-		Rule:   "a case = 1-3 nodes, a long-lived witness and 1-3 sessions with keep-alive 1/2/5/30 s running scripts of subscribe/publish/ping separated by idle periods of 0.5k or 0.9k (also right after CONNECT), ending by DISCONNECT, link cut, client close, silence > 2k, second CONNECT, hosting-node stop, or not at all; gossip drop/dup/delay until the settle; then traffic towards every session; non-trivial when >=2 sessions judged; distinct by hash of the scenario",
-		Real:   e1Real, Stub: e1Stub,
+		Rule: "a case = 1-3 nodes, a long-lived witness and 1-3 sessions with keep-alive 1/2/5/30 s running scripts of subscribe/publish/ping separated by idle periods of 0.5k or 0.9k (also right after CONNECT), ending by DISCONNECT, link cut, client close, silence > 2k, second CONNECT, hosting-node stop, or not at all; gossip drop/dup/delay until the settle; then traffic towards every session; non-trivial when >=2 sessions judged; distinct by hash of the scenario",
+		Real: e1Real, Stub: e1Stub,
 		Assume: []string{"keep-alive 0 (disabled) is not generated", "the broker's allowance is taken as 2x keep-alive; a silent session must be closed within 2k+5 s of the last traffic in either direction", "after DISCONNECT, protocol error or connection loss the broker must close its side within 1.5 s", "RPC black holes are excluded from this profile"}})
 }
 
